@@ -1117,6 +1117,7 @@ func runC09(c *Ctx) {
 	c09Call2(c)     // ---- 2g. full call statements, return, retain, pipeline bodies (c09call2.go)
 	c09Stage(c)     // ---- 2h. whole stage declarations: Stage.format / the grammar's stage production (c09stage.go)
 	c09Pipe(c)      // ---- 2i. whole pipeline declarations incl. the reordering of calls (c09pipe.go)
+	c09File(c)      // ---- 2j. whole comment-free files: Ast.format / the grammar's file production / NewAst (c09file.go)
 
 	// ---- 3. formatter monitors ----
 	progSeeds, _ := c08LoadSeeds(c)
